@@ -214,6 +214,9 @@ def main(argv=None):
           f"obligations={tot('obligations')} discharged={tot('discharged')} inconclusive={n_inconcl} "
           f"solver={ev['coverage']['solver_time_s']}s wall={wall:.1f}s")
     if os.environ.get("VERIF_VERBOSE"):
+        for r in results:
+            if r["obligations"] != r["discharged"]:
+                print(f"   undischarged: {r['obligations'] - r['discharged']} cex={len(r['cex'])} known={list(r['known_hits'])} inconcl={r['n_inconclusive']} {r['cfg']}")
         for r in sorted(results, key=lambda r: -r["wall_s"])[:6]:
             print(f"   slow: {r['wall_s']:.1f}s paths={r['paths']} queries={r['queries']} {r['cfg']}")
     for it in inconcl[:8]:
